@@ -85,6 +85,9 @@ static inline R* copy(R* b, R* e, R* d)
 
 #ifdef C05_ROW
 #include "c05_row_sparse.h"
+#ifndef C05_ASSIGN_HOOK
+#define C05_ASSIGN_HOOK(v)
+#endif
 #endif
 
 /* VectorBase<R>(dim, ptr) copies dim values into its own storage (std::vector); storage = a scratch buffer */
@@ -110,6 +113,7 @@ template <class T> struct VectorBase
       position: the cell g_p receives the value of the LAST entry whose index is g_p (tracked by add(i, v)), else 0 */
    VectorBase<T>& operator=(const SVectorBase<T>& v)
    {
+      C05_ASSIGN_HOOK(v);
       int n = dimen; T* d = val; int gp = v.gpos; const T* vv = v.vals;
       T t = 0;
       if(gp >= 0) t = vv[gp];
